@@ -43,61 +43,61 @@ func verifPanel() []verifQuery {
 	defEM := *structs.DefaultEnterpriseMetaInDefaultPartition()
 	for _, k := range vs.Keys {
 		k := k
-		add("KVSGet", k, func(s *state.Store) (uint64, interface{}, error) { return wrap3(s.KVSGet(nil, k, nil)) })
+		add("KVSGet", k, func(s *state.Store) (uint64, interface{}, error) { return verifWrap3(s.KVSGet(nil, k, nil)) })
 	}
 	for _, p := range vs.Prefixes {
 		p := p
-		add("KVSList", p, func(s *state.Store) (uint64, interface{}, error) { return wrap3(s.KVSList(nil, p, nil)) })
+		add("KVSList", p, func(s *state.Store) (uint64, interface{}, error) { return verifWrap3(s.KVSList(nil, p, nil)) })
 	}
-	add("SessionList", "", func(s *state.Store) (uint64, interface{}, error) { return wrap3(s.SessionList(nil, nil)) })
+	add("SessionList", "", func(s *state.Store) (uint64, interface{}, error) { return verifWrap3(s.SessionList(nil, nil)) })
 	for _, id := range vs.SessionPool(8) {
 		id := id
-		add("SessionGet", id, func(s *state.Store) (uint64, interface{}, error) { return wrap3(s.SessionGet(nil, id, nil)) })
+		add("SessionGet", id, func(s *state.Store) (uint64, interface{}, error) { return verifWrap3(s.SessionGet(nil, id, nil)) })
 	}
-	add("PreparedQueryList", "", func(s *state.Store) (uint64, interface{}, error) { return wrap3(s.PreparedQueryList(nil)) })
-	add("Coordinates", "", func(s *state.Store) (uint64, interface{}, error) { return wrap3(s.Coordinates(nil, nil)) })
+	add("PreparedQueryList", "", func(s *state.Store) (uint64, interface{}, error) { return verifWrap3(s.PreparedQueryList(nil)) })
+	add("Coordinates", "", func(s *state.Store) (uint64, interface{}, error) { return verifWrap3(s.Coordinates(nil, nil)) })
 	for _, peer := range verifPanelPeers {
 		peer := peer
-		add("Nodes", peer, func(s *state.Store) (uint64, interface{}, error) { return wrap3(s.Nodes(nil, nil, peer)) })
-		add("Services", peer, func(s *state.Store) (uint64, interface{}, error) { return wrap3(s.Services(nil, nil, peer, false)) })
-		add("ServiceList", peer, func(s *state.Store) (uint64, interface{}, error) { return wrap3(s.ServiceList(nil, nil, peer)) })
-		add("NodeDump", peer, func(s *state.Store) (uint64, interface{}, error) { return wrap3(s.NodeDump(nil, nil, peer)) })
-		add("ServiceDump", peer, func(s *state.Store) (uint64, interface{}, error) { return wrap3(s.ServiceDump(nil, "", false, nil, peer)) })
+		add("Nodes", peer, func(s *state.Store) (uint64, interface{}, error) { return verifWrap3(s.Nodes(nil, nil, peer)) })
+		add("Services", peer, func(s *state.Store) (uint64, interface{}, error) { return verifWrap3(s.Services(nil, nil, peer, false)) })
+		add("ServiceList", peer, func(s *state.Store) (uint64, interface{}, error) { return verifWrap3(s.ServiceList(nil, nil, peer)) })
+		add("NodeDump", peer, func(s *state.Store) (uint64, interface{}, error) { return verifWrap3(s.NodeDump(nil, nil, peer)) })
+		add("ServiceDump", peer, func(s *state.Store) (uint64, interface{}, error) { return verifWrap3(s.ServiceDump(nil, "", false, nil, peer)) })
 		for _, st := range []string{api.HealthAny, api.HealthPassing, api.HealthCritical} {
 			st := st
-			add("ChecksInState", peer+"/"+st, func(s *state.Store) (uint64, interface{}, error) { return wrap3(s.ChecksInState(nil, st, nil, peer)) })
+			add("ChecksInState", peer+"/"+st, func(s *state.Store) (uint64, interface{}, error) { return verifWrap3(s.ChecksInState(nil, st, nil, peer)) })
 		}
 		for _, n := range vs.Nodes {
 			n := n
-			add("NodeServices", peer+"/"+n, func(s *state.Store) (uint64, interface{}, error) { return wrap3(s.NodeServices(nil, n, nil, peer)) })
-			add("NodeChecks", peer+"/"+n, func(s *state.Store) (uint64, interface{}, error) { return wrap3(s.NodeChecks(nil, n, nil, peer)) })
+			add("NodeServices", peer+"/"+n, func(s *state.Store) (uint64, interface{}, error) { return verifWrap3(s.NodeServices(nil, n, nil, peer)) })
+			add("NodeChecks", peer+"/"+n, func(s *state.Store) (uint64, interface{}, error) { return verifWrap3(s.NodeChecks(nil, n, nil, peer)) })
 		}
 		for _, svc := range verifPanelServices {
 			svc := svc
-			add("ServiceNodes", peer+"/"+svc, func(s *state.Store) (uint64, interface{}, error) { return wrap3(s.ServiceNodes(nil, svc, nil, peer)) })
-			add("CheckServiceNodes", peer+"/"+svc, func(s *state.Store) (uint64, interface{}, error) { return wrap3(s.CheckServiceNodes(nil, svc, nil, peer)) })
+			add("ServiceNodes", peer+"/"+svc, func(s *state.Store) (uint64, interface{}, error) { return verifWrap3(s.ServiceNodes(nil, svc, nil, peer)) })
+			add("CheckServiceNodes", peer+"/"+svc, func(s *state.Store) (uint64, interface{}, error) { return verifWrap3(s.CheckServiceNodes(nil, svc, nil, peer)) })
 			add("CheckConnectServiceNodes", peer+"/"+svc, func(s *state.Store) (uint64, interface{}, error) {
-				return wrap3(s.CheckConnectServiceNodes(nil, svc, nil, peer))
+				return verifWrap3(s.CheckConnectServiceNodes(nil, svc, nil, peer))
 			})
-			add("ServiceChecks", peer+"/"+svc, func(s *state.Store) (uint64, interface{}, error) { return wrap3(s.ServiceChecks(nil, svc, nil, peer)) })
+			add("ServiceChecks", peer+"/"+svc, func(s *state.Store) (uint64, interface{}, error) { return verifWrap3(s.ServiceChecks(nil, svc, nil, peer)) })
 		}
 	}
 	for _, n := range vs.Nodes {
 		n := n
-		add("NodeSessions", n, func(s *state.Store) (uint64, interface{}, error) { return wrap3(s.NodeSessions(nil, n, nil)) })
-		add("Coordinate", n, func(s *state.Store) (uint64, interface{}, error) { return wrap3(s.Coordinate(nil, n, nil)) })
+		add("NodeSessions", n, func(s *state.Store) (uint64, interface{}, error) { return verifWrap3(s.NodeSessions(nil, n, nil)) })
+		add("Coordinate", n, func(s *state.Store) (uint64, interface{}, error) { return verifWrap3(s.Coordinate(nil, n, nil)) })
 	}
 	for _, svc := range verifPanelServices {
 		svc := svc
-		add("ConnectServiceNodes", svc, func(s *state.Store) (uint64, interface{}, error) { return wrap3(s.ConnectServiceNodes(nil, svc, nil, "")) })
-		add("CheckIngressServiceNodes", svc, func(s *state.Store) (uint64, interface{}, error) { return wrap3(s.CheckIngressServiceNodes(nil, svc, nil)) })
+		add("ConnectServiceNodes", svc, func(s *state.Store) (uint64, interface{}, error) { return verifWrap3(s.ConnectServiceNodes(nil, svc, nil, "")) })
+		add("CheckIngressServiceNodes", svc, func(s *state.Store) (uint64, interface{}, error) { return verifWrap3(s.CheckIngressServiceNodes(nil, svc, nil)) })
 		add("ServiceGateways", svc, func(s *state.Store) (uint64, interface{}, error) {
-			return wrap3(s.ServiceGateways(nil, svc, structs.ServiceKindTerminatingGateway, defEM))
+			return verifWrap3(s.ServiceGateways(nil, svc, structs.ServiceKindTerminatingGateway, defEM))
 		})
 		for _, kind := range []structs.ServiceKind{structs.ServiceKindTypical, structs.ServiceKindConnectProxy} {
 			kind := kind
 			add("ServiceTopology", svc+"/"+string(kind), func(s *state.Store) (uint64, interface{}, error) {
-				return wrap3(s.ServiceTopology(nil, "dc1", svc, kind, true, nil))
+				return verifWrap3(s.ServiceTopology(nil, "dc1", svc, kind, true, nil))
 			})
 		}
 		for _, peer := range verifPanelPeers {
@@ -112,36 +112,36 @@ func verifPanel() []verifQuery {
 			return 0, v, err
 		})
 		add("IntentionMatch", "dst/"+svc, func(s *state.Store) (uint64, interface{}, error) {
-			return wrap3(s.IntentionMatch(nil, &structs.IntentionQueryMatch{Type: structs.IntentionMatchDestination, Entries: []structs.IntentionMatchEntry{{Namespace: "default", Name: svc}}}))
+			return verifWrap3(s.IntentionMatch(nil, &structs.IntentionQueryMatch{Type: structs.IntentionMatchDestination, Entries: []structs.IntentionMatchEntry{{Namespace: "default", Name: svc}}}))
 		})
 	}
 	for _, gw := range []string{"ingress-gw", "term-gw", "mesh-gw", "web"} {
 		gw := gw
-		add("GatewayServices", gw, func(s *state.Store) (uint64, interface{}, error) { return wrap3(s.GatewayServices(nil, gw, nil)) })
+		add("GatewayServices", gw, func(s *state.Store) (uint64, interface{}, error) { return verifWrap3(s.GatewayServices(nil, gw, nil)) })
 	}
-	add("DumpGatewayServices", "", func(s *state.Store) (uint64, interface{}, error) { return wrap3(s.DumpGatewayServices(nil)) })
+	add("DumpGatewayServices", "", func(s *state.Store) (uint64, interface{}, error) { return verifWrap3(s.DumpGatewayServices(nil)) })
 	// ServiceNamesOfKind has no caller outside the state store (kind-service-names is a derived table judged through
 	// ServiceTopology / the intention queries): not part of the panel.
-	add("VirtualIPsForAllImportedServices", "", func(s *state.Store) (uint64, interface{}, error) { return wrap3(s.VirtualIPsForAllImportedServices(nil, defEM)) })
-	add("ConfigEntries", "", func(s *state.Store) (uint64, interface{}, error) { return wrap3(s.ConfigEntries(nil, wild)) })
+	add("VirtualIPsForAllImportedServices", "", func(s *state.Store) (uint64, interface{}, error) { return verifWrap3(s.VirtualIPsForAllImportedServices(nil, defEM)) })
+	add("ConfigEntries", "", func(s *state.Store) (uint64, interface{}, error) { return verifWrap3(s.ConfigEntries(nil, wild)) })
 	for _, kind := range []string{structs.ServiceDefaults, structs.ProxyDefaults, structs.ServiceResolver, structs.IngressGateway, structs.TerminatingGateway, structs.ServiceIntentions} {
 		kind := kind
-		add("ConfigEntriesByKind", kind, func(s *state.Store) (uint64, interface{}, error) { return wrap3(s.ConfigEntriesByKind(nil, kind, wild)) })
+		add("ConfigEntriesByKind", kind, func(s *state.Store) (uint64, interface{}, error) { return verifWrap3(s.ConfigEntriesByKind(nil, kind, wild)) })
 	}
 	add("Intentions", "", func(s *state.Store) (uint64, interface{}, error) {
 		idx, ixns, fromCE, err := s.Intentions(nil, wild)
 		return idx, map[string]interface{}{"Intentions": ixns, "FromConfigEntries": fromCE}, err
 	})
-	add("LegacyIntentions", "", func(s *state.Store) (uint64, interface{}, error) { return wrap3(s.LegacyIntentions(nil, wild)) })
-	add("CARoots", "", func(s *state.Store) (uint64, interface{}, error) { return wrap3(s.CARoots(nil)) })
-	add("CAConfig", "", func(s *state.Store) (uint64, interface{}, error) { return wrap3(s.CAConfig(nil)) })
+	add("LegacyIntentions", "", func(s *state.Store) (uint64, interface{}, error) { return verifWrap3(s.LegacyIntentions(nil, wild)) })
+	add("CARoots", "", func(s *state.Store) (uint64, interface{}, error) { return verifWrap3(s.CARoots(nil)) })
+	add("CAConfig", "", func(s *state.Store) (uint64, interface{}, error) { return verifWrap3(s.CAConfig(nil)) })
 	for _, id := range []string{"prov-1", "prov-2"} {
 		id := id
-		add("CAProviderState", id, func(s *state.Store) (uint64, interface{}, error) { return wrap3(s.CAProviderState(id)) })
+		add("CAProviderState", id, func(s *state.Store) (uint64, interface{}, error) { return verifWrap3(s.CAProviderState(id)) })
 	}
-	add("PeeringList", "", func(s *state.Store) (uint64, interface{}, error) { return wrap3(s.PeeringList(nil, defEM)) })
-	add("PeeringTrustBundleList", "", func(s *state.Store) (uint64, interface{}, error) { return wrap3(s.PeeringTrustBundleList(nil, defEM)) })
-	add("PeeringListDeleted", "", func(s *state.Store) (uint64, interface{}, error) { return wrap3(s.PeeringListDeleted(nil)) })
+	add("PeeringList", "", func(s *state.Store) (uint64, interface{}, error) { return verifWrap3(s.PeeringList(nil, defEM)) })
+	add("PeeringTrustBundleList", "", func(s *state.Store) (uint64, interface{}, error) { return verifWrap3(s.PeeringTrustBundleList(nil, defEM)) })
+	add("PeeringListDeleted", "", func(s *state.Store) (uint64, interface{}, error) { return verifWrap3(s.PeeringListDeleted(nil)) })
 	add("PeeringSecrets", "", func(s *state.Store) (uint64, interface{}, error) {
 		_, ps, err := s.PeeringList(nil, defEM)
 		var out []interface{}
@@ -152,22 +152,22 @@ func verifPanel() []verifQuery {
 		return 0, out, err
 	})
 	add("ExportedServicesForAllPeersByName", "", func(s *state.Store) (uint64, interface{}, error) {
-		return wrap3(s.ExportedServicesForAllPeersByName(nil, "dc1", defEM))
+		return verifWrap3(s.ExportedServicesForAllPeersByName(nil, "dc1", defEM))
 	})
 	add("ACLTokenList", "", func(s *state.Store) (uint64, interface{}, error) {
-		return wrap3(s.ACLTokenList(nil, true, true, "", "", "", nil, nil))
+		return verifWrap3(s.ACLTokenList(nil, true, true, "", "", "", nil, nil))
 	})
-	add("ACLPolicyList", "", func(s *state.Store) (uint64, interface{}, error) { return wrap3(s.ACLPolicyList(nil, nil)) })
-	add("ACLRoleList", "", func(s *state.Store) (uint64, interface{}, error) { return wrap3(s.ACLRoleList(nil, "", nil)) })
-	add("ACLBindingRuleList", "", func(s *state.Store) (uint64, interface{}, error) { return wrap3(s.ACLBindingRuleList(nil, "", nil)) })
-	add("ACLAuthMethodList", "", func(s *state.Store) (uint64, interface{}, error) { return wrap3(s.ACLAuthMethodList(nil, nil)) })
+	add("ACLPolicyList", "", func(s *state.Store) (uint64, interface{}, error) { return verifWrap3(s.ACLPolicyList(nil, nil)) })
+	add("ACLRoleList", "", func(s *state.Store) (uint64, interface{}, error) { return verifWrap3(s.ACLRoleList(nil, "", nil)) })
+	add("ACLBindingRuleList", "", func(s *state.Store) (uint64, interface{}, error) { return verifWrap3(s.ACLBindingRuleList(nil, "", nil)) })
+	add("ACLAuthMethodList", "", func(s *state.Store) (uint64, interface{}, error) { return verifWrap3(s.ACLAuthMethodList(nil, nil)) })
 	add("CanBootstrapACLToken", "", func(s *state.Store) (uint64, interface{}, error) {
 		ok, idx, err := s.CanBootstrapACLToken()
 		return idx, ok, err
 	})
-	add("FederationStateList", "", func(s *state.Store) (uint64, interface{}, error) { return wrap3(s.FederationStateList(nil)) })
-	add("AutopilotConfig", "", func(s *state.Store) (uint64, interface{}, error) { return wrap3(s.AutopilotConfig()) })
-	add("SystemMetadataList", "", func(s *state.Store) (uint64, interface{}, error) { return wrap3(s.SystemMetadataList(nil)) })
+	add("FederationStateList", "", func(s *state.Store) (uint64, interface{}, error) { return verifWrap3(s.FederationStateList(nil)) })
+	add("AutopilotConfig", "", func(s *state.Store) (uint64, interface{}, error) { return verifWrap3(s.AutopilotConfig()) })
+	add("SystemMetadataList", "", func(s *state.Store) (uint64, interface{}, error) { return verifWrap3(s.SystemMetadataList(nil)) })
 	add("FeatureGatePolicyAndStatus", "", func(s *state.Store) (uint64, interface{}, error) {
 		idx, p, st, err := s.FeatureGatePolicyAndStatus(nil)
 		return idx, []interface{}{p, st}, err
@@ -175,15 +175,15 @@ func verifPanel() []verifQuery {
 	// The node/peering/KV/config-entry usage getters feed the usage-metrics reporter only (no watch set, no client
 	// API): their counts are compared, their index is not. ServiceUsage backs the blocking /v1/operator/usage query.
 	noIdx := func(_ uint64, v interface{}, err error) (uint64, interface{}, error) { return 0, v, err }
-	add("NodeUsage", "", func(s *state.Store) (uint64, interface{}, error) { return noIdx(wrap3(s.NodeUsage())) })
-	add("PeeringUsage", "", func(s *state.Store) (uint64, interface{}, error) { return noIdx(wrap3(s.PeeringUsage())) })
-	add("KVUsage", "", func(s *state.Store) (uint64, interface{}, error) { return noIdx(wrap3(s.KVUsage())) })
-	add("ConfigEntryUsage", "", func(s *state.Store) (uint64, interface{}, error) { return noIdx(wrap3(s.ConfigEntryUsage())) })
-	add("ServiceUsage", "", func(s *state.Store) (uint64, interface{}, error) { return wrap3(s.ServiceUsage(nil, false)) })
+	add("NodeUsage", "", func(s *state.Store) (uint64, interface{}, error) { return noIdx(verifWrap3(s.NodeUsage())) })
+	add("PeeringUsage", "", func(s *state.Store) (uint64, interface{}, error) { return noIdx(verifWrap3(s.PeeringUsage())) })
+	add("KVUsage", "", func(s *state.Store) (uint64, interface{}, error) { return noIdx(verifWrap3(s.KVUsage())) })
+	add("ConfigEntryUsage", "", func(s *state.Store) (uint64, interface{}, error) { return noIdx(verifWrap3(s.ConfigEntryUsage())) })
+	add("ServiceUsage", "", func(s *state.Store) (uint64, interface{}, error) { return verifWrap3(s.ServiceUsage(nil, false)) })
 	return qs
 }
 
-func wrap3[T any](idx uint64, v T, err error) (uint64, interface{}, error) { return idx, v, err }
+func verifWrap3[T any](idx uint64, v T, err error) (uint64, interface{}, error) { return idx, v, err }
 
 var verifPanelQueries = verifPanel()
 
